@@ -2,6 +2,7 @@ import GramModel.Generated.ParserShape
 import GramModel.Parser
 import GramModel.Lemmas.Parser
 import GramModel.Lemmas.ParserTermination
+import GramModel.Lemmas.ParserCalls
 
 /-!
 # C17 — parsing time does not blow up with nesting or length
@@ -108,3 +109,43 @@ theorem C17_cache_grows : C17_cache_grows_stmt := by
   intro toks fuel nt start st st' r h
   exact (Grows.parseNT toks fuel nt start).elim h
 
+
+/-! ## The packrat phase does linear work -/
+
+/-- **Linear number of calls.**  Every call of a packrat function is either a hit or a miss of the
+memo table; each miss runs one body, and a body makes a bounded number of calls.  So the *total*
+number of calls (hits and misses together, summed over the 36 functions) made while parsing `n`
+tokens is at most `K · (n + 1)` for a constant `K` that does not depend on the input. -/
+def C17_total_calls_linear_stmt : Prop :=
+  ∃ K : Nat, ∀ (toks : Array PModel.PTok) (r : PModel.PResult) (st' : PModel.PState),
+    PModel.runParser toks = some (r, st') →
+    (st'.hits.foldl (· + ·) 0) + (st'.misses.foldl (· + ·) 0) ≤ K * (toks.size + 1)
+theorem C17_total_calls_linear : C17_total_calls_linear_stmt := by
+  refine ⟨361, fun toks r st' h => ?_⟩
+  exact PModel.runParser_calls_le toks r st' h
+
+/-! `C17_total_calls_linear` is proved in `Lemmas/ParserCalls.lean` with `K = 361 = 10 · 36 + 1`: no
+body calls `rec` in a loop, the largest one (`parseJumboTerm`) makes 9 calls (`Cnt.parseBody`), so
+`hits ≤ 9 · misses + 1` (`runParser_hits_le`) and `misses ≤ 36 · (n + 1)`. -/
+
+/-- **Hits are paid for by misses**: over a whole parse, the number of memo-table hits is at most
+nine times the number of misses, plus one. -/
+def C17_hits_le_misses_stmt : Prop :=
+  ∀ (toks : Array PModel.PTok) (r : PModel.PResult) (st' : PModel.PState),
+    PModel.runParser toks = some (r, st') →
+    (st'.hits.foldl (· + ·) 0) ≤ 9 * (st'.misses.foldl (· + ·) 0) + 1
+theorem C17_hits_le_misses : C17_hits_le_misses_stmt := by
+  intro toks r st' h
+  exact PModel.runParser_hits_le toks r st' h
+
+/-- **The packrat phase terminates after linear work**: for every token array the parse phase
+(run with the model's fuel `36 · (n + 1) + 1`) does not run out of fuel, and the total number of
+calls of the 36 memoised functions (hits plus misses) is at most `361 · (n + 1)`. -/
+def C17_parser_terminates_linear_stmt : Prop :=
+  ∀ (toks : Array PModel.PTok), ∃ (r : PModel.PResult) (st' : PModel.PState),
+    PModel.runParser toks = some (r, st') ∧
+    (st'.hits.foldl (· + ·) 0) + (st'.misses.foldl (· + ·) 0) ≤ 361 * (toks.size + 1)
+theorem C17_parser_terminates_linear : C17_parser_terminates_linear_stmt := by
+  intro toks
+  obtain ⟨r, st', h, _⟩ := PModel.runParser_ok toks
+  exact ⟨r, st', h, PModel.runParser_calls_le toks r st' h⟩
